@@ -313,11 +313,11 @@ func ruleWebsocketServerProtocols(c *Ctx, r string) {
 			c.R.Unknown(r, hw, "websocket peer construction", c.pos(in), "unexpected argument list")
 			continue
 		}
-		var leaves []ssa.Value
-		phiLeaves(call.Call.Args[1], map[ssa.Value]bool{}, &leaves)
+		var leaves []phiLeaf
+		phiLeavesAt(call.Call.Args[1], nil, 0, map[ssa.Value]bool{}, &leaves)
 		var bad []string
 		for _, l := range leaves {
-			if d := ir.Desc(l); !okLeaf.MatchString(d) {
+			if d := ir.Desc(l.val); !okLeaf.MatchString(d) && !leafInfeasible(fn, in, l) {
 				bad = append(bad, d)
 			}
 		}
@@ -415,8 +415,92 @@ func ruleQueueDefault(c *Ctx, rule string) {
 // goroutines without a nil test: a nil logger turns every logged protocol error into a crash of the process).
 func ruleClientLoggerDefault(c *Ctx, rule string) {
 	cn := "client.ConnectNet"
-	isNil := clause("no logger configured", T(`^\(%cfg\.Logger == nil\)$`))
-	c.Reach(rule, cn, "a missing logger is replaced before a transport is created", ReachSpec{FromEdge: &isNil,
-		Stop: `^store:&local:cfg\.&Logger=call:log\.New\(`, Target: `^call:transport\.Connect(Websocket|RawSocket)Peer\(`, Want: false})
-	c.Has(rule, cn, "transports get the configured logger", `^call:transport\.Connect(Websocket|RawSocket)Peer\(.*%cfg\.Logger`, 3)
+	fn := c.Fn(rule, cn)
+	if fn == nil {
+		return
+	}
+	calls := matches(fn, `^call:transport\.Connect(Websocket|RawSocket)Peer\(`)
+	c.R.Check(len(calls) >= 3, rule, cn, "transport constructors enumerated", c.P.FuncPos(fn), fmt.Sprintf("found %d calls of transport.Connect*Peer, 3 confirmed by reading", len(calls)))
+	const nilTest = `^\((%cfg\.Logger|local:\w+) == nil\)$`
+	isNil := clause("no logger configured", T(nilTest))
+	for i, in := range calls {
+		var arg ssa.Value
+		for _, a := range in.(*ssa.Call).Call.Args {
+			if strings.HasSuffix(ir.TypeStr(a.Type()), "StdLog") {
+				arg = a
+			}
+		}
+		label := fmt.Sprintf("transport #%d never gets a nil logger", i)
+		if arg == nil {
+			c.R.Unknown(rule, cn, label, c.pos(in), "no logger argument found")
+			continue
+		}
+		var leaves []ssa.Value
+		phiLeaves(arg, map[ssa.Value]bool{}, &leaves)
+		hasDefault, hasField := false, false
+		for _, l := range leaves {
+			if d := ir.Desc(l); strings.HasPrefix(d, "call:log.New(") {
+				hasDefault = true
+			} else {
+				hasField = true
+			}
+		}
+		switch {
+		case hasDefault && hasField:
+			// logger := cfg.Logger; if logger == nil { logger = log.New(..) }: the value is selected by a nil test
+			g, _ := ir.GuardedBy(fn, in, clause("logger tested for nil", T(nilTest), F(nilTest)))
+			c.R.Check(g, rule, cn, label, c.pos(in), "the logger given to the transport is either the configured one or a default, but no nil test selects between them")
+		case hasDefault:
+			c.R.OK(rule, cn, label, c.pos(in), "")
+		default:
+			// the configuration copy itself is completed before use
+			c.Reach(rule, cn, label+" (missing logger replaced in the configuration copy first)", ReachSpec{FromEdge: &isNil,
+				Stop: `^store:&local:cfg\.&Logger=call:log\.New\(`, Target: "^" + q(ir.InstrDesc(in)) + "$", Want: false})
+		}
+	}
+}
+
+// phiLeaf is a value that can flow into a phi through the edge from the idx-th predecessor of the phi's block.
+type phiLeaf struct {
+	val ssa.Value
+	phi *ssa.Phi
+	idx int
+}
+
+func phiLeavesAt(v ssa.Value, ph *ssa.Phi, idx int, seen map[ssa.Value]bool, out *[]phiLeaf) {
+	if seen[v] {
+		return
+	}
+	seen[v] = true
+	switch x := v.(type) {
+	case *ssa.Phi:
+		for i, e := range x.Edges {
+			phiLeavesAt(e, x, i, seen, out)
+		}
+	case *ssa.MakeInterface:
+		phiLeavesAt(x.X, ph, idx, seen, out)
+	case *ssa.ChangeInterface:
+		phiLeavesAt(x.X, ph, idx, seen, out)
+	default:
+		*out = append(*out, phiLeaf{v, ph, idx})
+	}
+}
+
+// leafInfeasible: the alternative l of a phi cannot be the value at instruction `at`: entering the phi's block through
+// the edge that selects it, `at` is unreachable for the path-sensitive walker (a flag that travels with the value —
+// the "ok" result of an inlined helper — is tested before `at`).
+func leafInfeasible(fn *ssa.Function, at ssa.Instruction, l phiLeaf) bool {
+	if l.phi == nil || l.idx >= len(l.phi.Block().Preds) {
+		return false
+	}
+	pred := l.phi.Block().Preds[l.idx]
+	for si, sc := range pred.Succs {
+		if sc == l.phi.Block() {
+			w := (&ir.Walk{}).FromEdge(pred, si)
+			if w.Reached[at] {
+				return false
+			}
+		}
+	}
+	return true
 }
